@@ -279,6 +279,53 @@ func genC15(r *Run) {
 				}
 			}
 		}
+		// direct oracle: for the field-setting modifiers the caller's LAST word prevails over defaults and earlier modifiers
+		if _, pf, ef := runBuilderOpt(full, false); ef == nil {
+			last := map[int][]byte{}
+			overridden := map[int]bool{} // WithReply / WithRelay touch several fields: what follows them in the list decides
+			for j := 0; j+2 < len(mods); j += 3 {
+				k := int(numArg(mods[j]))
+				switch k {
+				case 1, 2, 3, 4, 5, 8, 10:
+					last[k] = mods[j+1]
+					delete(overridden, k)
+				case 7: // reply: xid, hwtype, hwaddr, giaddr
+					overridden[1], overridden[8], overridden[10], overridden[5] = true, true, true, true
+				case 15: // relay: giaddr
+					overridden[5] = true
+				}
+			}
+			for k, v := range last {
+				if overridden[k] {
+					continue
+				}
+				var got []byte
+				want := v
+				switch k {
+				case 1:
+					got = pf.TransactionID[:]
+					w := make([]byte, 4)
+					copy(w, v)
+					want = w
+				case 2:
+					got, want = pf.ClientIPAddr, ipArg(v)
+				case 3:
+					got, want = pf.YourIPAddr, ipArg(v)
+				case 4:
+					got, want = pf.ServerIPAddr, ipArg(v)
+				case 5:
+					got, want = pf.GatewayIPAddr, ipArg(v)
+				case 8:
+					got, want = be16b(uint16(pf.HWType)), be16b(uint16(numArg(v)))
+				case 10:
+					got = pf.ClientHWAddr
+				}
+				if !bytes.Equal(got, want) {
+					r.Fail("c15-last-modifier-does-not-prevail", trunc(Case{eV4Build, full}.Line(), 1500),
+						fmt.Sprintf("modifier kind %d with value %x is the caller's last word on that field, the packet has %x", k, want, got))
+				}
+			}
+		}
 		r.Count(fmt.Sprintf("builder=%d", bid))
 		r.Count(fmt.Sprintf("user-mods=%d", nm))
 		// property oracles on the version without user modifiers
